@@ -3,6 +3,7 @@
 From AV Require Import DenC.
 From AVchk Require Import Gen_C11.
 From Coq Require Import Lra Lia Psatz.
+From Coquelicot Require Import Rcomplements.
 Open Scope C_scope.
 
 Definition f0 : string -> list C -> C := fun _ _ => 0.
@@ -75,7 +76,115 @@ Ltac norm_args s m1 m2 :=
 Lemma sqrt_4x x : (0 <= x -> sqrt (4 * x) = 2 * sqrt x)%R.
 Proof. intros H. rewrite sqrt_mult by lra. replace 4%R with (2*2)%R by ring. rewrite sqrt_square by lra. ring. Qed.
 
-(* ---------- above threshold: the three real variants ---------- *)
+
+(* ---------- Piecewise / relational plumbing ---------- *)
+Lemma Rltb_true a b : (a < b)%R -> Rltb a b = true.
+Proof. intros; unfold Rltb; destruct (Rlt_dec a b); [reflexivity|contradiction]. Qed.
+Lemma Rltb_false a b : (b <= a)%R -> Rltb a b = false.
+Proof. intros; unfold Rltb; destruct (Rlt_dec a b); [lra|reflexivity]. Qed.
+Lemma if_true A (X Y : A) : (if Req_EM_T (fst (b2C true)) 0 then X else Y) = Y.
+Proof. cbn. destruct (Req_EM_T 1 0); [lra|reflexivity]. Qed.
+Lemma if_false A (X Y : A) : (if Req_EM_T (fst (b2C false)) 0 then X else Y) = X.
+Proof. cbn. destruct (Req_EM_T 0 0); [reflexivity|lra]. Qed.
+Lemma if_one A (X Y : A) : (if Req_EM_T 1 0 then X else Y) = Y.
+Proof. destruct (Req_EM_T 1 0); [lra|reflexivity]. Qed.
+Ltac resolve_if := rewrite ?if_true, ?if_false, ?if_one.
+Ltac wd_solve := repeat split; try exact I; try reflexivity; try (apply RtoC_neq0; try lra).
+Lemma CpowZ_1 z : CpowZ z 1 = z. Proof. reflexivity. Qed.
+Lemma CpowZ_m1 z : CpowZ z (-1) = / z. Proof. reflexivity. Qed.
+
+(* ---------- explicit cartesian form: [mkC x y] = x + i y, normalised bottom-up ---------- *)
+Definition mkC (x y : R) : C := (x, y).
+Lemma Ci_mk : Ci = mkC 0 1. Proof. reflexivity. Qed.
+Lemma pair_mk (x y : R) : (x, y) = mkC x y. Proof. reflexivity. Qed.
+Lemma mk_Rl a x y : RtoC a * mkC x y = mkC (a * x) (a * y).
+Proof. unfold mkC, Cmult, RtoC; cbn [fst snd]. f_equal; ring. Qed.
+Lemma mk_Rr a x y : mkC x y * RtoC a = mkC (x * a) (y * a).
+Proof. unfold mkC, Cmult, RtoC; cbn [fst snd]. f_equal; ring. Qed.
+Lemma mk_mult x y x' y' : mkC x y * mkC x' y' = mkC (x * x' - y * y') (x * y' + y * x').
+Proof. reflexivity. Qed.
+Lemma mk_plus x y x' y' : mkC x y + mkC x' y' = mkC (x + x') (y + y').
+Proof. reflexivity. Qed.
+Lemma mk_plus_Rl a x y : RtoC a + mkC x y = mkC (a + x) y.
+Proof. unfold mkC, Cplus, RtoC; cbn [fst snd]. f_equal; ring. Qed.
+Lemma mk_plus_Rr a x y : mkC x y + RtoC a = mkC (x + a) y.
+Proof. unfold mkC, Cplus, RtoC; cbn [fst snd]. f_equal; ring. Qed.
+Lemma mk_opp x y : - mkC x y = mkC (- x) (- y). Proof. reflexivity. Qed.
+Lemma mk_inv x y : / mkC x y = mkC (x / (x * x + y * y)) (- y / (x * x + y * y)).
+Proof. unfold mkC, Cinv; cbn [fst snd]. f_equal; f_equal; ring. Qed.
+Lemma mk_R a : RtoC a = mkC a 0. Proof. reflexivity. Qed.
+Lemma fst_mk x y : fst (mkC x y) = x. Proof. reflexivity. Qed.
+Lemma snd_mk x y : snd (mkC x y) = y. Proof. reflexivity. Qed.
+Lemma mk_eq x y x' y' : x = x' -> y = y' -> mkC x y = mkC x' y'.
+Proof. intros -> ->. reflexivity. Qed.
+Global Opaque mkC.
+Ltac to_mk :=
+  rewrite ?CpowZ_1, ?CpowZ_m1, ?Ci_mk, ?pair_mk;
+  repeat first
+    [ rewrite mk_Rl | rewrite mk_Rr | rewrite mk_mult | rewrite mk_plus | rewrite mk_plus_Rl
+    | rewrite mk_plus_Rr | rewrite mk_opp | rewrite mk_inv ].
+
+Lemma Clog_neg_mk x : (x < 0)%R -> Clog (RtoC x) = mkC (ln (- x)) PI.
+Proof. intros H. rewrite Clog_neg by exact H. reflexivity. Qed.
+Lemma Csqrt_neg_mk x : (x < 0)%R -> Csqrt (RtoC x) = mkC 0 (sqrt (- x)).
+Proof. intros H. rewrite Csqrt_neg by exact H. rewrite Ci_mk, mk_Rr. apply mk_eq; ring. Qed.
+
+
+(* ---------- real-analysis facts about q^2 above threshold ---------- *)
+Definition wR (s m1 m2 : R) : R := (sqrt s * sqrt (4 * q2R s m1 m2))%R.
+Lemma wR_sq s m1 m2 : (0 < s -> 0 <= q2R s m1 m2 ->
+  wR s m1 m2 * wR s m1 m2 = (s - m1^2 - m2^2)^2 - 4*m1^2*m2^2)%R.
+Proof.
+  intros Hs Hq. unfold wR.
+  replace (sqrt s * sqrt (4 * q2R s m1 m2) * (sqrt s * sqrt (4 * q2R s m1 m2)))%R
+    with ((sqrt s * sqrt s) * (sqrt (4 * q2R s m1 m2) * sqrt (4 * q2R s m1 m2)))%R by ring.
+  rewrite !sqrt_sqrt by lra. unfold q2R. field. lra.
+Qed.
+Lemma wR_lt s m1 m2 : (0 < m1 -> 0 < m2 -> (m1+m2)^2 < s -> 0 <= wR s m1 m2 < s - m1^2 - m2^2)%R.
+Proof.
+  intros H1 H2 Hs. assert (Hs0 : (0 < s)%R) by nra.
+  pose proof (q2_pos_above s m1 m2 H1 H2 Hs) as Hq.
+  pose proof (wR_sq s m1 m2 Hs0 (Rlt_le _ _ Hq)) as Hw.
+  assert (Hw0 : (0 <= wR s m1 m2)%R) by (unfold wR; apply Rmult_le_pos; apply sqrt_pos).
+  split; [exact Hw0|].
+  assert (HA : (2*m1*m2 < s - m1^2 - m2^2)%R) by nra.
+  destruct (Rlt_dec (wR s m1 m2) (s - m1^2 - m2^2)) as [L|N]; [exact L|exfalso].
+  apply Rnot_lt_le in N. assert (0 < m1*m2)%R by nra.
+  assert ((s - m1^2 - m2^2) * (s - m1^2 - m2^2) <= wR s m1 m2 * wR s m1 m2)%R
+    by (apply Rmult_le_compat; lra).
+  nra.
+Qed.
+Lemma two_sqrtq_lt s m1 m2 : (0 < m1 -> 0 < m2 -> (m1+m2)^2 < s -> 2 * sqrt (q2R s m1 m2) < sqrt s)%R.
+Proof.
+  intros H1 H2 Hs. assert (Hs0 : (0 < s)%R) by nra.
+  pose proof (q2_pos_above s m1 m2 H1 H2 Hs) as Hq.
+  rewrite <- sqrt_4x by lra. apply sqrt_lt_1; try lra.
+  unfold q2R.
+  assert ((s - (m1 + m2) ^ 2) * (s - (m1 - m2) ^ 2) < s * s)%R.
+  { assert (0 < s - (m1 + m2) ^ 2 < s)%R by nra.
+    assert (0 < m1*m2)%R by (apply Rmult_lt_0_compat; lra).
+    assert (0 <= (m1-m2)^2)%R by apply pow2_ge_0.
+    assert ((m1-m2)^2 = (m1+m2)^2 - 4*(m1*m2))%R by ring.
+    assert (0 < s - (m1 - m2) ^ 2 <= s)%R by lra.
+    apply Rle_lt_trans with ((s - (m1 + m2) ^ 2) * s)%R;
+      [apply Rmult_le_compat_l; lra | apply Rmult_lt_compat_r; lra]. }
+  apply Rmult_lt_reg_r with s; [lra|].
+  replace (4 * ((s - (m1 + m2) ^ 2) * (s - (m1 - m2) ^ 2) / (4 * s)) * s)%R
+    with ((s - (m1 + m2) ^ 2) * (s - (m1 - m2) ^ 2))%R by (field; lra).
+  lra.
+Qed.
+Lemma rho_lt1 s m1 m2 : (0 < m1 -> 0 < m2 -> (m1+m2)^2 < s -> 0 < rhoR s m1 m2 < 1)%R.
+Proof.
+  intros H1 H2 Hs. assert (Hs0 : (0 < s)%R) by nra.
+  pose proof (q2_pos_above s m1 m2 H1 H2 Hs) as Hq.
+  pose proof (two_sqrtq_lt s m1 m2 H1 H2 Hs) as Ht.
+  unfold rhoR. assert (0 < sqrt s)%R by (apply sqrt_lt_R0; lra).
+  assert (0 < sqrt (q2R s m1 m2))%R by (apply sqrt_lt_R0; lra).
+  split; [apply Rdiv_lt_0_compat; lra|].
+  apply Rlt_div_l; [lra|]. lra.
+Qed.
+
+(* ---------- above threshold ---------- *)
 Section Above.
   Variables s m1 m2 : R.
   Hypothesis H1 : (0 < m1)%R.
@@ -83,13 +192,580 @@ Section Above.
   Hypothesis Hs : ((m1+m2)^2 < s)%R.
   Let Hs0 : (0 < s)%R. Proof. nra. Qed.
   Let Hq : (0 < q2R s m1 m2)%R. Proof. apply q2_pos_above; assumption. Qed.
+  Let Hss : (sqrt s <> 0)%R. Proof. apply Rgt_not_eq, sqrt_lt_R0. exact Hs0. Qed.
 
-  Lemma psf_above : denC (envS s m1 m2) gen_psf = RtoC (rhoR s m1 m2).
+  Ltac above_start :=
+    pose proof Hs0 as Hs0'; pose proof Hq as Hq'; pose proof Hss as Hss';
+    denC_simplR; lift_R; norm_args s m1 m2;
+    replace (0 / 1)%R with 0%R by field.
+
+  Lemma psf_above : wdC (envS s m1 m2) gen_psf /\ denC (envS s m1 m2) gen_psf = RtoC (rhoR s m1 m2).
   Proof.
-    pose proof Hs0 as Hs0'. pose proof Hq as Hq'.
-    unfold gen_psf, envS. denC_simplR. lift_R. norm_args s m1 m2.
-    rewrite ?Csqrt_nonneg by lra. lift_R. f_equal. unfold rhoR. unfold_pows.
-    rewrite ?sqrt_4x by lra. assert (sqrt s <> 0)%R by (apply Rgt_not_eq, sqrt_lt_R0; lra).
-    field. assumption.
+    unfold gen_psf, envS. above_start.
+    rewrite ?Csqrt_nonneg by lra. lift_R. split; [wd_solve|].
+    f_equal. unfold rhoR. unfold_pows. rewrite ?sqrt_4x by lra. field. assumption.
+  Qed.
+
+  Lemma abs_above : wdC (envS s m1 m2) gen_abs /\ denC (envS s m1 m2) gen_abs = RtoC (rhoR s m1 m2).
+  Proof.
+    unfold gen_abs, envS. above_start.
+    rewrite ?(Rabs_pos_eq s), ?(Rabs_pos_eq (4 * q2R s m1 m2)) by lra.
+    rewrite ?Csqrt_nonneg by lra. lift_R. split; [wd_solve|].
+    f_equal. unfold rhoR. unfold_pows. rewrite ?sqrt_4x by lra. field. assumption.
+  Qed.
+
+  Lemma cpx_above : wdC (envS s m1 m2) gen_cpx /\ denC (envS s m1 m2) gen_cpx = RtoC (rhoR s m1 m2).
+  Proof.
+    unfold gen_cpx, envS. above_start.
+    rewrite !Rltb_false by lra. resolve_if.
+    rewrite ?Csqrt_nonneg by lra. lift_R. split; [wd_solve|].
+    f_equal. unfold rhoR. unfold_pows. rewrite ?sqrt_4x by lra. field. assumption.
+  Qed.
+
+  Lemma swave_above : wdC (envS s m1 m2) gen_swave /\ fst (denC (envS s m1 m2) gen_swave) = rhoR s m1 m2.
+  Proof.
+    pose proof (wR_lt s m1 m2 H1 H2 Hs) as [Hw0 Hlt].
+    assert (HA : (2*m1*m2 < s - m1^2 - m2^2)%R) by nra.
+    unfold gen_swave, envS. above_start.
+    rewrite !Rltb_false by lra. resolve_if.
+    rewrite ?Csqrt_nonneg by lra. lift_R.
+    repeat match goal with |- context [Clog (RtoC ?x)] =>
+      first [ replace x with (m1 / m2)%R by (unfold_pows; field; lra)
+            | replace x with (- ((s - m1^2 - m2^2 - wR s m1 m2) / (2*m1*m2)))%R
+                by (unfold wR; unfold_pows; field; lra) ];
+      lazymatch goal with
+      | |- context [Clog (RtoC (m1 / m2)%R)] =>
+          rewrite (Clog_pos (m1 / m2)) by (apply Rdiv_lt_0_compat; lra)
+      | |- _ => rewrite Clog_neg_mk by (apply Ropp_lt_gt_0_contravar, Rdiv_lt_0_compat; nra)
+      end
+    end.
+    lift_R. to_mk. rewrite fst_mk. split.
+    - wd_solve.
+      + apply PI_neq0.
+      + apply Rgt_not_eq, Rdiv_lt_0_compat; lra.
+      + apply Rlt_not_eq, Ropp_lt_gt_0_contravar, Rdiv_lt_0_compat; nra.
+    - unfold rhoR. unfold_pows. rewrite ?sqrt_4x by lra. field. repeat split; try assumption; try apply PI_neq0; lra.
+  Qed.
+
+  Lemma eqm_above : wdC (envS s m1 m2) gen_eqm /\ fst (denC (envS s m1 m2) gen_eqm) = rhoR s m1 m2.
+  Proof.
+    pose proof (rho_lt1 s m1 m2 H1 H2 Hs) as Hr.
+    pose proof (two_sqrtq_lt s m1 m2 H1 H2 Hs) as Ht.
+    unfold gen_eqm, envS. above_start.
+    rewrite ?(Rabs_pos_eq s), ?(Rabs_pos_eq (4 * q2R s m1 m2)) by lra.
+    rewrite ?Csqrt_nonneg by lra. lift_R. rewrite ?sqrt_4x by lra.
+    rewrite (Rltb_false s 0) by lra.
+    match goal with |- context [Rltb ?x s] => replace x with ((m1+m2)^2)%R by (unfold_pows; ring) end.
+    rewrite (Rltb_true _ s) by lra. resolve_if.
+    repeat match goal with |- context [Rabs ?x] =>
+      replace x with ((1 + rhoR s m1 m2) / (1 - rhoR s m1 m2))%R
+        by (unfold rhoR; unfold_pows; field; split; lra);
+      rewrite (Rabs_pos_eq ((1 + rhoR s m1 m2) / (1 - rhoR s m1 m2)))
+        by (apply Rlt_le, Rdiv_lt_0_compat; lra)
+    end.
+    rewrite Clog_pos by (apply Rdiv_lt_0_compat; lra). lift_R. to_mk. rewrite fst_mk. split.
+    - wd_solve.
+      + apply PI_neq0.
+      + match goal with |- ?x <> 0%R =>
+          replace x with (1 - rhoR s m1 m2)%R by (unfold rhoR; unfold_pows; field; lra) end. lra.
+      + apply Rgt_not_eq, Rdiv_lt_0_compat; lra.
+    - unfold rhoR. unfold_pows. field. repeat split; try assumption; try apply PI_neq0; lra.
   Qed.
 End Above.
+
+(* ---------- between pseudo-threshold and threshold ---------- *)
+Section Gap.
+  Variables s m1 m2 : R.
+  Hypothesis H1 : (0 < m1)%R.
+  Hypothesis H2 : (0 < m2)%R.
+  Hypothesis Hs : ((m1-m2)^2 < s < (m1+m2)^2)%R.
+
+  Lemma gap_s_pos : (0 < s)%R.
+  Proof. pose proof (pow2_ge_0 (m1 - m2)). lra. Qed.
+
+  Lemma cpx_is_i_abs :
+    wdC (envS s m1 m2) gen_cpx /\ wdC (envS s m1 m2) gen_abs /\
+    denC (envS s m1 m2) gen_cpx = Ci * denC (envS s m1 m2) gen_abs.
+  Proof.
+    pose proof gap_s_pos as Hs0. pose proof (q2_neg_gap s m1 m2 H1 H2 Hs0 Hs) as Hq.
+    assert (sqrt s <> 0)%R by (apply Rgt_not_eq, sqrt_lt_R0; lra).
+    unfold gen_cpx, gen_abs, envS. denC_simplR. lift_R. norm_args s m1 m2.
+    replace (0 / 1)%R with 0%R by field. rewrite !Rltb_true by lra. resolve_if.
+    rewrite ?(Rabs_pos_eq s) by lra. rewrite ?(Rabs_left (4 * q2R s m1 m2)) by lra.
+    rewrite ?Csqrt_nonneg by lra. lift_R. to_mk.
+    split; [wd_solve | split; [wd_solve | apply mk_eq; unfold_pows; field; assumption]].
+  Qed.
+End Gap.
+
+(* ---------- half-angle: Arg of a unimodular number ---------- *)
+Open Scope R_scope.
+Lemma atan_double_small t : 0 < t < 1 -> atan (2 * t / (1 - t * t)) = 2 * atan t.
+Proof.
+  intros [H0 H1].
+  assert (Hb : 0 < atan t < PI / 4).
+  { split. rewrite <- atan_0. apply atan_increasing; lra. rewrite <- atan_1. apply atan_increasing; lra. }
+  assert (Hc : cos (atan t) <> 0) by (apply Rgt_not_eq, cos_gt_0; lra).
+  assert (Hc2 : cos (atan t + atan t) <> 0) by (apply Rgt_not_eq, cos_gt_0; lra).
+  replace (2 * atan t) with (atan t + atan t) by ring.
+  rewrite <- (atan_tan (atan t + atan t)) by lra.
+  f_equal. rewrite tan_plus; rewrite ?tan_atan; try assumption.
+  - field. nra.
+  - nra.
+Qed.
+
+Lemma atan2_halfangle t : 0 < t ->
+  atan2 (2 * t / (1 + t * t)) ((1 - t * t) / (1 + t * t)) = 2 * atan t.
+Proof.
+  intros H0. assert (Hp : 0 < 1 + t * t) by nra.
+  assert (Hy : 0 < 2 * t / (1 + t * t)) by (apply Rdiv_lt_0_compat; lra).
+  unfold atan2.
+  destruct (Rlt_dec 0 ((1 - t * t) / (1 + t * t))) as [Hx|Hx].
+  - assert (t < 1).
+    { destruct (Rlt_dec t 1); [assumption|exfalso]. 
+      assert ((1 - t * t) / (1 + t * t) <= 0); [|lra].
+      unfold Rdiv. rewrite <- (Rmult_0_l (/ (1 + t*t))). apply Rmult_le_compat_r; [apply Rlt_le, Rinv_0_lt_compat; lra | nra]. }
+    rewrite <- atan_double_small by lra. f_equal. field. split; nra.
+  - destruct (Rlt_dec ((1 - t * t) / (1 + t * t)) 0) as [Hx'|Hx'].
+    + assert (1 < t).
+      { destruct (Rlt_dec 1 t); [assumption|exfalso].
+        assert (0 <= (1 - t * t) / (1 + t * t)); [|lra].
+        apply Rcomplements.Rdiv_le_0_compat; nra. }
+      destruct (Rle_dec 0 (2 * t / (1 + t * t))) as [_|N]; [|lra].
+      assert (Hi : 0 < / t < 1).
+      { split. apply Rinv_0_lt_compat; lra. rewrite <- Rinv_1. apply Rinv_lt_contravar; lra. }
+      replace (2 * t / (1 + t * t) / ((1 - t * t) / (1 + t * t))) with (- (2 * / t / (1 - / t * / t))) by (field; repeat split; nra).
+      rewrite atan_opp, atan_double_small, atan_inv by lra. field.
+    + assert (t = 1).
+      { assert (E : (1 - t * t) / (1 + t * t) = 0) by lra.
+        apply (f_equal (fun z => z * (1 + t * t))) in E. unfold Rdiv in E. rewrite Rmult_assoc, Rinv_l, Rmult_0_l in E by lra. nra. }
+      subst t. destruct (Rlt_dec 0 (2 * 1 / (1 + 1 * 1))); [|lra]. rewrite atan_1. field.
+Qed.
+
+Lemma Clog_unit_halfangle t : 0 < t ->
+  Clog (mkC ((1 - t * t) / (1 + t * t)) (2 * t / (1 + t * t))) = mkC 0 (2 * atan t).
+Proof.
+  intros H0. assert (Hp : 0 < 1 + t * t) by nra.
+  rewrite <- (pair_mk ((1 - t * t) / (1 + t * t))). unfold Clog, Carg, Cmod. cbn [fst snd].
+  rewrite atan2_halfangle by exact H0.
+  replace (((1 - t * t) / (1 + t * t)) ^ 2 + (2 * t / (1 + t * t)) ^ 2) with 1 by (field; lra).
+  rewrite sqrt_1, ln_1. apply pair_mk.
+Qed.
+
+Open Scope C_scope.
+
+(* ---------- equal masses: EqualMassPhaseSpaceFactor = PhaseSpaceFactorSWave ---------- *)
+Definition dR (s m : R) : R := (m^2 - s/4)%R.
+Ltac norm_d x s m :=
+  first [ replace x with (dR s m) by (unfold dR; unfold_pows; field)
+        | replace x with (- dR s m)%R by (unfold dR; unfold_pows; field) ].
+Ltac norm_eq s m :=
+  replace (0 / 1)%R with 0%R by field;
+  repeat match goal with
+         | |- context [Csqrt (RtoC ?x)] =>
+             lazymatch x with
+             | dR _ _ => fail | (- dR _ _)%R => fail | s => fail | Rabs _ => fail
+             | _ => norm_d x s m
+             end
+         | |- context [Rabs ?x] =>
+             lazymatch x with
+             | dR _ _ => fail | (- dR _ _)%R => fail | s => fail
+             | _ => norm_d x s m
+             end
+         | |- context [Rltb 0 ?x] =>
+             lazymatch x with
+             | dR _ _ => fail 
+             | _ => norm_d x s m
+             end
+         | |- context [Rltb ?x s] =>
+             lazymatch x with
+             | (4 * m^2)%R => fail 
+             | _ => replace x with (4 * m^2)%R by (unfold_pows; field)
+             end
+         end.
+
+Lemma mk_neq0_re x y : x <> 0%R -> mkC x y <> 0.
+Proof. intros H E. apply (f_equal fst) in E. rewrite fst_mk in E. cbn in E. contradiction. Qed.
+Lemma mk_neq0_im x y : y <> 0%R -> mkC x y <> 0.
+Proof. intros H E. apply (f_equal snd) in E. rewrite snd_mk in E. cbn in E. contradiction. Qed.
+
+Lemma div_neq0 a b : a <> 0%R -> b <> 0%R -> (a / b)%R <> 0%R.
+Proof. intros Ha Hb. unfold Rdiv. apply Rmult_integral_contrapositive_currified; [exact Ha|apply Rinv_neq_0_compat; exact Hb]. Qed.
+
+Definition eq_stmt (s m : R) : Prop :=
+  wdC (envE s m) gen_eqm_eq /\ wdC (envE s m) gen_swave_eq /\
+  denC (envE s m) gen_eqm_eq = denC (envE s m) gen_swave_eq.
+
+Lemma eqm_eq_swave_neg s m : (0 < m)%R -> (s < 0)%R -> eq_stmt s m.
+Proof.
+  intros H1 Hs. assert (Hd : (0 < dR s m)%R) by (unfold dR; nra).
+  unfold eq_stmt, gen_swave_eq, gen_eqm_eq, envE. denC_simplR. lift_R. norm_eq s m.
+  rewrite ?(Rltb_true 0 (dR s m)), ?(Rltb_true s 0) by lra. resolve_if.
+  rewrite ?(Rabs_left s), ?(Rabs_pos_eq (dR s m)) by lra.
+  rewrite ?(Csqrt_nonneg (dR s m)), ?(Csqrt_nonneg (- s)) by lra. rewrite ?(Csqrt_neg_mk s) by lra.
+  lift_R. to_mk.
+  assert (HA : (0 < sqrt (- s))%R) by (apply sqrt_lt_R0; lra).
+  assert (HB : (sqrt (- s) < 2 * sqrt (dR s m))%R).
+  { rewrite <- sqrt_4x by lra. apply sqrt_lt_1; unfold dR; nra. }
+  assert (Es : s = (- (sqrt (- s) * sqrt (- s)))%R) by (rewrite sqrt_sqrt; lra).
+  assert (Em : (m ^ 2 = sqrt (dR s m) * sqrt (dR s m) - sqrt (- s) * sqrt (- s) / 4)%R).
+  { rewrite !sqrt_sqrt by lra. unfold dR. field. }
+  remember (sqrt (- s)) as A. remember (sqrt (dR s m)) as B.
+  pose (r := ((A + 2 * B) / (2 * B - A))%R).
+  assert (Hr : (0 < r)%R) by (apply Rdiv_lt_0_compat; lra).
+  repeat match goal with |- context [mkC ?x ?y] =>
+    lazymatch goal with
+    | |- context [Clog (mkC x y)] => replace (mkC x y) with (RtoC (/ r))
+    | |- context [mkC x y <> 0] => replace (mkC x y) with (RtoC (/ r))
+    end; [|
+    rewrite mk_R; apply mk_eq;
+     [ unfold r; unfold_pows; rewrite Em; rewrite Es; field; repeat split; nra | ring ] ]
+  end.
+  repeat match goal with |- context [Rabs ?x] =>
+    lazymatch x with (- r)%R => fail | _ => replace x with (- r)%R by (unfold r; unfold_pows; field; split; lra) end end.
+  rewrite ?Rabs_Ropp, ?(Rabs_pos_eq r) by lra.
+  rewrite !Clog_pos by (try apply Rinv_0_lt_compat; lra). rewrite ln_Rinv by lra.
+  lift_R. to_mk.
+  split; [|split].
+  3: apply mk_eq; unfold_pows; field; repeat split; try apply PI_neq0; lra.
+  all: wd_solve; try apply PI_neq0; try (apply Rinv_neq_0_compat; lra).
+  all: match goal with |- ?x <> 0%R =>
+         replace x with ((A - 2 * B) / A)%R by (unfold_pows; field; lra) end; apply div_neq0; lra.
+Qed.
+
+Lemma eqm_eq_swave_above s m : (0 < m)%R -> (4 * m ^ 2 < s)%R -> eq_stmt s m.
+Proof.
+  intros H1 Hs. assert (Hd : (dR s m < 0)%R) by (unfold dR; nra). assert (Hs0 : (0 < s)%R) by nra.
+  unfold eq_stmt, gen_swave_eq, gen_eqm_eq, envE. denC_simplR. lift_R. norm_eq s m.
+  rewrite ?(Rltb_false 0 (dR s m)), ?(Rltb_false s 0), ?(Rltb_true (4*m^2) s) by lra. resolve_if.
+  rewrite ?(Rabs_pos_eq s), ?(Rabs_left (dR s m)) by lra.
+  rewrite ?(Csqrt_nonneg (- dR s m)), ?(Csqrt_nonneg s) by lra.
+  lift_R.
+  assert (HB : (0 < sqrt (- dR s m))%R) by (apply sqrt_lt_R0; lra).
+  assert (HA : (2 * sqrt (- dR s m) < sqrt s)%R).
+  { rewrite <- sqrt_4x by lra. apply sqrt_lt_1; unfold dR; nra. }
+  assert (Es : s = (sqrt s * sqrt s)%R) by (rewrite sqrt_sqrt; lra).
+  assert (Em : (m ^ 2 = sqrt s * sqrt s / 4 - sqrt (- dR s m) * sqrt (- dR s m))%R).
+  { rewrite !sqrt_sqrt by lra. unfold dR. field. }
+  remember (sqrt s) as A. remember (sqrt (- dR s m)) as B.
+  pose (r := ((A + 2 * B) / (A - 2 * B))%R).
+  assert (Hr : (0 < r)%R) by (apply Rdiv_lt_0_compat; lra).
+  repeat match goal with |- context [Rabs ?x] =>
+    lazymatch x with r => fail | _ => replace x with r by (unfold r; unfold_pows; field; split; lra) end end.
+  rewrite ?(Rabs_pos_eq r) by lra.
+  repeat match goal with |- context [Clog (RtoC ?x)] =>
+    lazymatch x with r => fail | (- / r)%R => fail | _ =>
+    replace x with (- / r)%R by (unfold r; unfold_pows; rewrite Em; rewrite Es; field; repeat split; nra) end end.
+  assert (0 < / r)%R by (apply Rinv_0_lt_compat; lra).
+  rewrite ?(Clog_neg_mk (- / r)) by lra. rewrite ?(Clog_pos r) by lra. rewrite Ropp_involutive, ln_Rinv by lra.
+  lift_R. to_mk.
+  split; [|split].
+  3: apply mk_eq; unfold_pows; field; repeat split; try apply PI_neq0; lra.
+  all: wd_solve; try apply PI_neq0.
+  all: match goal with |- ?x <> 0%R =>
+         replace x with ((A - 2 * B) / A)%R by (unfold_pows; field; lra) end; apply div_neq0; lra.
+Qed.
+
+Lemma eqm_eq_swave_mid s m : (0 < m)%R -> (0 < s < 4 * m ^ 2)%R -> eq_stmt s m.
+Proof.
+  intros H1 Hs. assert (Hd : (0 < dR s m)%R) by (unfold dR; nra). assert (Hs0 : (0 < s)%R) by nra.
+  unfold eq_stmt, gen_swave_eq, gen_eqm_eq, envE. denC_simplR. lift_R. norm_eq s m.
+  rewrite ?(Rltb_true 0 (dR s m)), ?(Rltb_false s 0), ?(Rltb_false (4*m^2) s) by lra. resolve_if.
+  rewrite ?(Rabs_pos_eq s), ?(Rabs_pos_eq (dR s m)) by lra.
+  rewrite ?(Csqrt_nonneg (dR s m)), ?(Csqrt_nonneg s) by lra.
+  lift_R.
+  assert (HB : (0 < sqrt (dR s m))%R) by (apply sqrt_lt_R0; lra).
+  assert (HA : (0 < sqrt s)%R) by (apply sqrt_lt_R0; lra).
+  assert (Es : s = (sqrt s * sqrt s)%R) by (rewrite sqrt_sqrt; lra).
+  assert (Em : (m ^ 2 = sqrt s * sqrt s / 4 + sqrt (dR s m) * sqrt (dR s m))%R).
+  { rewrite !sqrt_sqrt by lra. unfold dR. field. }
+  remember (sqrt s) as A. remember (sqrt (dR s m)) as B.
+  pose (t := (A / (2 * B))%R).
+  assert (Ht : (0 < t)%R) by (apply Rdiv_lt_0_compat; lra). to_mk.
+  repeat match goal with |- context [mkC ?x ?y] =>
+    lazymatch goal with
+    | |- context [Clog (mkC x y)] => idtac
+    | |- context [mkC x y <> 0] => idtac
+    end;
+    lazymatch x with ((1 - t * t) / (1 + t * t))%R => fail | _ => idtac end;
+    replace x with ((1 - t * t) / (1 + t * t))%R
+      by (unfold t; unfold_pows; rewrite Em; rewrite Es; field; repeat split; nra);
+    replace y with (2 * t / (1 + t * t))%R
+      by (unfold t; unfold_pows; rewrite Em; field; repeat split; nra)
+  end.
+  rewrite Clog_unit_halfangle by exact Ht.
+  repeat match goal with |- context [atan ?x] =>
+    lazymatch x with t => fail | _ => replace x with t by (unfold t; unfold_pows; field; lra) end end.
+  to_mk.
+  split; [|split].
+  3: apply mk_eq; unfold_pows; field; repeat split; try apply PI_neq0; lra.
+  all: wd_solve; try apply PI_neq0.
+  all: apply mk_neq0_im, div_neq0; nra.
+Qed.
+
+(* ---------- closed forms near threshold, value at threshold, limit ---------- *)
+Lemma eqm_mid_closed s m : (0 < m)%R -> (0 < s < 4 * m ^ 2)%R ->
+  denC (envE s m) gen_eqm_eq =
+  mkC 0 (4 / PI * (sqrt (dR s m) / sqrt s) * atan (sqrt s / (2 * sqrt (dR s m)))).
+Proof.
+  intros H1 Hs. assert (Hd : (0 < dR s m)%R) by (unfold dR; nra). assert (Hs0 : (0 < s)%R) by nra.
+  unfold gen_eqm_eq, envE. denC_simplR. lift_R. norm_eq s m.
+  rewrite ?(Rltb_false s 0), ?(Rltb_false (4*m^2) s) by lra. resolve_if.
+  rewrite ?(Rabs_pos_eq s), ?(Rabs_pos_eq (dR s m)) by lra.
+  rewrite ?(Csqrt_nonneg (dR s m)), ?(Csqrt_nonneg s) by lra.
+  lift_R.
+  assert (HB : (0 < sqrt (dR s m))%R) by (apply sqrt_lt_R0; lra).
+  assert (HA : (0 < sqrt s)%R) by (apply sqrt_lt_R0; lra).
+  repeat match goal with |- context [atan ?x] =>
+    lazymatch x with (sqrt s / (2 * sqrt (dR s m)))%R => fail
+    | _ => replace x with (sqrt s / (2 * sqrt (dR s m)))%R by (unfold_pows; field; lra) end end.
+  to_mk. apply mk_eq; unfold_pows; field; repeat split; try apply PI_neq0; lra.
+Qed.
+
+Lemma eqm_above_closed s m : (0 < m)%R -> (4 * m ^ 2 < s)%R ->
+  denC (envE s m) gen_eqm_eq =
+  mkC (2 * sqrt (- dR s m) / sqrt s)
+      (2 / PI * (sqrt (- dR s m) / sqrt s) *
+       ln ((sqrt s + 2 * sqrt (- dR s m)) / (sqrt s - 2 * sqrt (- dR s m)))).
+Proof.
+  intros H1 Hs. assert (Hd : (dR s m < 0)%R) by (unfold dR; nra). assert (Hs0 : (0 < s)%R) by nra.
+  unfold gen_eqm_eq, envE. denC_simplR. lift_R. norm_eq s m.
+  rewrite ?(Rltb_false s 0), ?(Rltb_true (4*m^2) s) by lra. resolve_if.
+  rewrite ?(Rabs_pos_eq s), ?(Rabs_left (dR s m)) by lra.
+  rewrite ?(Csqrt_nonneg (- dR s m)), ?(Csqrt_nonneg s) by lra.
+  lift_R.
+  assert (HB : (0 < sqrt (- dR s m))%R) by (apply sqrt_lt_R0; lra).
+  assert (HA : (2 * sqrt (- dR s m) < sqrt s)%R).
+  { rewrite <- sqrt_4x by lra. apply sqrt_lt_1; unfold dR; nra. }
+  set (r := ((sqrt s + 2 * sqrt (- dR s m)) / (sqrt s - 2 * sqrt (- dR s m)))%R).
+  assert (Hr : (0 < r)%R) by (apply Rdiv_lt_0_compat; lra).
+  repeat match goal with |- context [Rabs ?x] =>
+    lazymatch x with r => fail | _ => replace x with r by (unfold r; unfold_pows; field; split; lra) end end.
+  rewrite ?(Rabs_pos_eq r) by lra. rewrite ?(Clog_pos r) by lra.
+  lift_R. to_mk. apply mk_eq; unfold_pows; field; repeat split; try apply PI_neq0; lra.
+Qed.
+
+Lemma eqm_undefined_at_threshold m : (0 < m)%R -> ~ wdC (envE (4 * m ^ 2) m) gen_eqm_eq.
+Proof.
+  intros H1. unfold gen_eqm_eq, envE. denC_simplR. lift_R. norm_eq (4 * m ^ 2)%R m.
+  rewrite ?(Rltb_false (4 * m ^ 2) 0), ?(Rltb_false (4 * m ^ 2) (4 * m ^ 2)) by nra. resolve_if.
+  intros W.
+  repeat match goal with H : _ /\ _ |- _ => destruct H end.
+  match goal with H : _ <> _ |- _ =>
+    apply H; replace (dR (4 * m ^ 2) m) with 0%R by (unfold dR; field); rewrite Rabs_R0; reflexivity end.
+Qed.
+
+Lemma swave_at_threshold m : (0 < m)%R ->
+  wdC (envE (4 * m ^ 2) m) gen_swave_eq /\ denC (envE (4 * m ^ 2) m) gen_swave_eq = 0.
+Proof.
+  intros H1. unfold gen_swave_eq, envE. denC_simplR. lift_R. norm_eq (4 * m ^ 2)%R m.
+  replace (dR (4 * m ^ 2) m) with 0%R by (unfold dR; field).
+  rewrite ?(Rltb_false 0 0) by lra. resolve_if. rewrite ?Ropp_0.
+  rewrite ?(Csqrt_nonneg 0), ?(Csqrt_nonneg (4 * m ^ 2)) by nra. rewrite sqrt_0. lift_R.
+Abort.
+
+Open Scope R_scope.
+Lemma Cmod_mk_le x y : Cmod (mkC x y) <= Rabs x + Rabs y.
+Proof.
+  rewrite <- pair_mk. unfold Cmod. cbn [fst snd].
+  rewrite <- (sqrt_Rsqr (Rabs x + Rabs y)) by (pose proof (Rabs_pos x); pose proof (Rabs_pos y); lra).
+  apply sqrt_le_1_alt. unfold Rsqr.
+  pose proof (Rabs_pos x); pose proof (Rabs_pos y).
+  replace (x ^ 2) with (Rabs x * Rabs x) by (rewrite <- Rabs_mult; rewrite Rabs_pos_eq; nra).
+  replace (y ^ 2) with (Rabs y * Rabs y) by (rewrite <- Rabs_mult; rewrite Rabs_pos_eq; nra).
+  nra.
+Qed.
+
+Lemma ln_lt_minus1 x : 1 < x -> ln x < x - 1.
+Proof.
+  intros H. rewrite <- (ln_exp (x - 1)). apply ln_increasing; [lra|].
+  pose proof (exp_ineq1 (x - 1)). lra.
+Qed.
+
+Lemma eqm_mid_bound s m : 0 < m -> 3 * m ^ 2 < s < 4 * m ^ 2 ->
+  Cmod (denC (envE s m) gen_eqm_eq) <= 2 * sqrt (Rabs (s - 4 * m ^ 2)) / m.
+Proof.
+  intros H1 Hs. rewrite eqm_mid_closed by (try assumption; nra).
+  assert (Hd : 0 < dR s m) by (unfold dR; nra).
+  assert (HB : 0 < sqrt (dR s m)) by (apply sqrt_lt_R0; lra).
+  assert (HA : m < sqrt s).
+  { rewrite <- (sqrt_pow2 m) by lra. apply sqrt_lt_1; nra. }
+  replace (Rabs (s - 4 * m ^ 2)) with (4 * dR s m) by (rewrite Rabs_left by lra; unfold dR; field).
+  rewrite sqrt_4x by lra.
+  eapply Rle_trans; [apply Cmod_mk_le|]. rewrite Rabs_R0, Rplus_0_l.
+  set (B := sqrt (dR s m)) in *. set (A := sqrt s) in *.
+  assert (Ht : 0 < A / (2 * B)) by (apply Rdiv_lt_0_compat; lra).
+  assert (Hat : 0 < atan (A / (2 * B)) < PI / 2).
+  { split; [rewrite <- atan_0; apply atan_increasing; lra | apply atan_bound]. }
+  pose proof PI_RGT_0 as Hpi.
+  assert (HBA : 0 < B / A) by (apply Rdiv_lt_0_compat; lra).
+  assert (HK : 0 < 4 / PI * (B / A)).
+  { apply Rmult_lt_0_compat; [apply Rdiv_lt_0_compat; lra | lra]. }
+  rewrite Rabs_pos_eq by (apply Rlt_le, Rmult_lt_0_compat; lra).
+  apply Rle_trans with (4 / PI * (B / A) * (PI / 2)).
+  { apply Rmult_le_compat_l; lra. }
+  replace (4 / PI * (B / A) * (PI / 2)) with (2 * B * / A) by (field; split; lra).
+  apply Rlt_le. unfold Rdiv. apply Rle_lt_trans with (2 * (2 * B) * / A).
+  { apply Rmult_le_compat_r; [apply Rlt_le, Rinv_0_lt_compat; lra | lra]. }
+  apply Rmult_lt_compat_l; [lra|]. apply Rinv_lt_contravar; [nra|lra].
+Qed.
+
+Lemma eqm_above_bound s m : 0 < m -> 4 * m ^ 2 < s < 4 * m ^ 2 + m ^ 2 / 4 ->
+  Cmod (denC (envE s m) gen_eqm_eq) <= 2 * sqrt (Rabs (s - 4 * m ^ 2)) / m.
+Proof.
+  intros H1 Hs. rewrite eqm_above_closed by (try assumption; nra).
+  assert (Hd : 0 < - dR s m) by (unfold dR; nra).
+  assert (HB : 0 < sqrt (- dR s m)) by (apply sqrt_lt_R0; lra).
+  assert (HA : 2 * m < sqrt s).
+  { replace (2 * m) with (sqrt ((2 * m) ^ 2)) by (apply sqrt_pow2; lra). apply sqrt_lt_1; nra. }
+  assert (HB2 : 2 * sqrt (- dR s m) < m / 2).
+  { rewrite <- sqrt_4x by lra. replace (m / 2) with (sqrt ((m / 2) ^ 2)) by (apply sqrt_pow2; lra).
+    apply sqrt_lt_1; unfold dR; nra. }
+  replace (Rabs (s - 4 * m ^ 2)) with (4 * - dR s m) by (rewrite Rabs_pos_eq by lra; unfold dR; field).
+  rewrite sqrt_4x by lra.
+  eapply Rle_trans; [apply Cmod_mk_le|].
+  set (B := sqrt (- dR s m)) in *. set (A := sqrt s) in *.
+  pose proof PI2_1 as Hpi.
+  set (rho := 2 * B / A).
+  assert (Hrho : 0 < rho < 1 / 2).
+  { unfold rho. split; [apply Rdiv_lt_0_compat; lra|]. apply Rlt_div_l; lra. }
+  assert (Er : (A + 2 * B) / (A - 2 * B) = (1 + rho) / (1 - rho)) by (unfold rho; field; split; lra).
+  rewrite Er.
+  assert (Hr1 : 1 < (1 + rho) / (1 - rho)) by (apply Rlt_div_r; lra).
+  assert (Hln : 0 < ln ((1 + rho) / (1 - rho)) < 2).
+  { split. rewrite <- ln_1. apply ln_increasing; lra.
+    eapply Rlt_trans; [apply ln_lt_minus1; exact Hr1|].
+    assert ((1 + rho) / (1 - rho) < 3); [apply Rlt_div_l; lra | lra]. }
+  replace (2 * B / A) with rho by reflexivity.
+  replace (2 / PI * (B / A)) with (rho / PI) by (unfold rho; field; split; lra).
+  assert (0 < rho / PI) by (apply Rdiv_lt_0_compat; lra).
+  rewrite (Rabs_pos_eq rho) by lra.
+  rewrite Rabs_pos_eq by (apply Rlt_le, Rmult_lt_0_compat; lra).
+  apply Rle_trans with (rho + rho / PI * 2).
+  { apply Rplus_le_compat_l, Rmult_le_compat_l; lra. }
+  apply Rle_trans with (2 * rho).
+  { replace (rho / PI * 2) with (rho * (2 / PI)) by (field; lra).
+    assert (2 / PI < 1) by (apply Rlt_div_l; lra). nra. }
+  unfold rho. unfold Rdiv. apply Rlt_le.
+  replace (2 * (2 * B * / A)) with (2 * (2 * B) * / A) by ring.
+  apply Rmult_lt_compat_l; [lra|]. apply Rinv_lt_contravar; [nra|lra].
+Qed.
+
+Lemma eq_stmt_near s m : 0 < m -> s <> 4 * m ^ 2 -> 0 < s -> eq_stmt s m.
+Proof.
+  intros H1 Hne Hs. destruct (Rlt_dec s (4 * m ^ 2)).
+  - apply eqm_eq_swave_mid; [assumption|lra].
+  - apply eqm_eq_swave_above; [assumption|lra].
+Qed.
+
+Lemma eqm_near_bound s m : 0 < m -> s <> 4 * m ^ 2 -> Rabs (s - 4 * m ^ 2) < m ^ 2 / 4 ->
+  eq_stmt s m /\ Cmod (denC (envE s m) gen_eqm_eq) <= 2 * sqrt (Rabs (s - 4 * m ^ 2)) / m.
+Proof.
+  intros H1 Hne Hd. assert (Hm : 0 < m ^ 2) by nra.
+  apply Rabs_def2 in Hd. split; [apply eq_stmt_near; try assumption; lra|].
+  destruct (Rlt_dec s (4 * m ^ 2)).
+  - apply eqm_mid_bound; [assumption|lra].
+  - apply eqm_above_bound; [assumption|lra].
+Qed.
+
+Lemma limit_at_threshold m eps : 0 < m -> 0 < eps ->
+  exists delta, 0 < delta /\ forall s, s <> 4 * m ^ 2 -> Rabs (s - 4 * m ^ 2) < delta ->
+    (wdC (envE s m) gen_eqm_eq /\ Cmod (denC (envE s m) gen_eqm_eq) < eps) /\
+    (wdC (envE s m) gen_swave_eq /\ Cmod (denC (envE s m) gen_swave_eq) < eps).
+Proof.
+  intros H1 He. assert (Hm : 0 < m ^ 2) by nra.
+  exists (Rmin (m ^ 2 / 4) ((eps * m / 2) ^ 2)). split.
+  { apply Rmin_pos; [lra|]. apply pow_lt. apply Rdiv_lt_0_compat; nra. }
+  intros s Hne Hd.
+  assert (Hd1 : Rabs (s - 4 * m ^ 2) < m ^ 2 / 4) by (eapply Rlt_le_trans; [exact Hd|apply Rmin_l]).
+  assert (Hd2 : Rabs (s - 4 * m ^ 2) < (eps * m / 2) ^ 2) by (eapply Rlt_le_trans; [exact Hd|apply Rmin_r]).
+  destruct (eqm_near_bound s m H1 Hne Hd1) as [[W1 [W2 E]] Hb].
+  assert (Hlt : Cmod (denC (envE s m) gen_eqm_eq) < eps).
+  { eapply Rle_lt_trans; [exact Hb|].
+    assert (sqrt (Rabs (s - 4 * m ^ 2)) < eps * m / 2).
+    { rewrite <- (sqrt_pow2 (eps * m / 2)) by (apply Rlt_le, Rdiv_lt_0_compat; nra).
+      apply sqrt_lt_1; [apply Rabs_pos | apply pow2_ge_0 | exact Hd2]. }
+    apply Rlt_div_l; [lra|]. lra. }
+  split; [split; assumption | split; [assumption | rewrite <- E; exact Hlt]].
+Qed.
+
+
+(* ---------- statements in terms of the regenerated q^2 tree ---------- *)
+Open Scope C_scope.
+Lemma q2_fst s m1 m2 : s <> 0%R -> fst (denC (envS s m1 m2) gen_q2) = q2R s m1 m2.
+Proof. intros H. destruct (q2_closed s m1 m2 H) as [_ E]. rewrite E. reflexivity. Qed.
+
+Lemma q2_symmetric_gen s m1 m2 : s <> 0%R ->
+  wdC (envS s m1 m2) gen_q2 /\ wdC (envS s m2 m1) gen_q2 /\
+  denC (envS s m1 m2) gen_q2 = denC (envS s m2 m1) gen_q2.
+Proof.
+  intros H. destruct (q2_closed s m1 m2 H) as [W1 E1]. destruct (q2_closed s m2 m1 H) as [W2 E2].
+  split; [exact W1|split; [exact W2|]]. rewrite E1, E2, q2_symmetric. reflexivity.
+Qed.
+Lemma q2_zero_threshold_gen m1 m2 : (0 < m1)%R -> (0 < m2)%R ->
+  wdC (envS ((m1 + m2) ^ 2) m1 m2) gen_q2 /\ denC (envS ((m1 + m2) ^ 2) m1 m2) gen_q2 = 0.
+Proof.
+  intros H1 H2. assert (H : ((m1 + m2) ^ 2 <> 0)%R) by (apply Rgt_not_eq; nra).
+  destruct (q2_closed _ m1 m2 H) as [W E]. split; [exact W|]. rewrite E, q2_zero_threshold by exact H. reflexivity.
+Qed.
+Lemma q2_zero_pseudothreshold_gen m1 m2 : m1 <> m2 ->
+  wdC (envS ((m1 - m2) ^ 2) m1 m2) gen_q2 /\ denC (envS ((m1 - m2) ^ 2) m1 m2) gen_q2 = 0.
+Proof.
+  intros Hne. assert (H : ((m1 - m2) ^ 2 <> 0)%R).
+  { apply Rgt_not_eq. assert (m1 - m2 <> 0)%R by lra. nra. }
+  destruct (q2_closed _ m1 m2 H) as [W E]. split; [exact W|]. rewrite E, q2_zero_pseudothreshold by exact H. reflexivity.
+Qed.
+Lemma q2_undefined_at_zero m1 m2 : ~ wdC (envS 0 m1 m2) gen_q2.
+Proof.
+  unfold gen_q2, envS. denC_simplR. intros W.
+  repeat match goal with H : _ /\ _ |- _ => destruct H end.
+  match goal with H : _ <> _ |- _ => apply H; reflexivity end.
+Qed.
+
+Definition re_above_stmt (X : expr) (s m1 m2 : R) : Prop :=
+  wdC (envS s m1 m2) X /\ wdC (envS s m1 m2) gen_q2 /\
+  fst (denC (envS s m1 m2) X) = (2 * sqrt (fst (denC (envS s m1 m2) gen_q2)) / sqrt s)%R.
+
+Section AboveStmt.
+  Variables s m1 m2 : R.
+  Hypothesis H1 : (0 < m1)%R.
+  Hypothesis H2 : (0 < m2)%R.
+  Hypothesis Hs : ((m1+m2)^2 < s)%R.
+  Let Hs0 : (s <> 0)%R. Proof. apply Rgt_not_eq. nra. Qed.
+
+  Lemma re_above_real X : wdC (envS s m1 m2) X /\ denC (envS s m1 m2) X = RtoC (rhoR s m1 m2) ->
+    re_above_stmt X s m1 m2 /\ snd (denC (envS s m1 m2) X) = 0%R.
+  Proof.
+    intros [W E]. destruct (q2_closed s m1 m2 Hs0) as [Wq _].
+    unfold re_above_stmt. rewrite q2_fst by exact Hs0. rewrite E.
+    split; [split; [exact W|split; [exact Wq|reflexivity]]|reflexivity].
+  Qed.
+  Lemma re_above_cpx X : wdC (envS s m1 m2) X /\ fst (denC (envS s m1 m2) X) = rhoR s m1 m2 ->
+    re_above_stmt X s m1 m2.
+  Proof.
+    intros [W E]. destruct (q2_closed s m1 m2 Hs0) as [Wq _].
+    unfold re_above_stmt. rewrite q2_fst by exact Hs0. rewrite E.
+    split; [exact W|split; [exact Wq|reflexivity]].
+  Qed.
+End AboveStmt.
+
+Lemma re_above_psf_stmt s m1 m2 : (0 < m1)%R -> (0 < m2)%R -> ((m1 + m2) ^ 2 < s)%R ->
+  re_above_stmt gen_psf s m1 m2 /\ snd (denC (envS s m1 m2) gen_psf) = 0%R.
+Proof. intros H1 H2 Hs. apply re_above_real; try assumption. apply psf_above; assumption. Qed.
+Lemma re_above_abs_stmt s m1 m2 : (0 < m1)%R -> (0 < m2)%R -> ((m1 + m2) ^ 2 < s)%R ->
+  re_above_stmt gen_abs s m1 m2 /\ snd (denC (envS s m1 m2) gen_abs) = 0%R.
+Proof. intros H1 H2 Hs. apply re_above_real; try assumption. apply abs_above; assumption. Qed.
+Lemma re_above_cpx_stmt s m1 m2 : (0 < m1)%R -> (0 < m2)%R -> ((m1 + m2) ^ 2 < s)%R ->
+  re_above_stmt gen_cpx s m1 m2 /\ snd (denC (envS s m1 m2) gen_cpx) = 0%R.
+Proof. intros H1 H2 Hs. apply re_above_real; try assumption. apply cpx_above; assumption. Qed.
+Lemma re_above_swave_stmt s m1 m2 : (0 < m1)%R -> (0 < m2)%R -> ((m1 + m2) ^ 2 < s)%R ->
+  re_above_stmt gen_swave s m1 m2.
+Proof. intros H1 H2 Hs. apply re_above_cpx; try assumption. apply swave_above; assumption. Qed.
+Lemma re_above_eqm_stmt s m1 m2 : (0 < m1)%R -> (0 < m2)%R -> ((m1 + m2) ^ 2 < s)%R ->
+  re_above_stmt gen_eqm s m1 m2.
+Proof. intros H1 H2 Hs. apply re_above_cpx; try assumption. apply eqm_above; assumption. Qed.
+Lemma equalmass_eq_swave_all s m : (0 < m)%R -> s <> 0%R -> s <> (4 * m ^ 2)%R -> eq_stmt s m.
+Proof.
+  intros Hm H0 H4. destruct (Rlt_dec s 0) as [Hn|Hn].
+  - exact (eqm_eq_swave_neg s m Hm Hn).
+  - apply eq_stmt_near; try assumption. lra.
+Qed.
